@@ -152,6 +152,57 @@ def _classes():
         globals()[c.__name__] = c
 
 
+
+def _trace_failure_manager(context) -> None:
+    """log lock acquisitions / is_recovering checks made under a request's lock / successful claims (C19)"""
+    fm = context.failure_manager
+    if not hasattr(fm, "_retry_requests"):
+        return
+    ev = STATE.setdefault("fm_events", [])
+    rids: dict = {}
+    held: dict = {}
+
+    def rid() -> int:
+        t = asyncio.current_task()
+        return rids.setdefault(id(t), len(rids) + 1)
+
+    class TracedLock(asyncio.Lock):
+        def __init__(self, name):
+            super().__init__()
+            self.sfv_name = name
+
+        async def acquire(self):
+            r = await super().acquire()
+            held.setdefault(rid(), set()).add(self.sfv_name)
+            ev.append(["acquire", rid(), self.sfv_name])
+            return r
+
+        def release(self):
+            held.get(rid(), set()).discard(self.sfv_name)
+            ev.append(["release", rid(), self.sfv_name])
+            return super().release()
+
+    orig_get, orig_is, orig_upd = fm.get_request, fm.is_recovering, fm._update_request
+
+    def get_request(job_name):
+        r = orig_get(job_name)
+        if not isinstance(r.lock, TracedLock):
+            r.lock = TracedLock(job_name)
+        return r
+
+    async def is_recovering(job_name):
+        res = await orig_is(job_name)
+        if job_name in held.get(rid(), set()):
+            ev.append(["check", rid(), job_name, bool(res)])
+        return res
+
+    async def _update_request(job_name):
+        await orig_upd(job_name)
+        ev.append(["claim", rid(), job_name])
+
+    fm.get_request, fm.is_recovering, fm._update_request = get_request, is_recovering, _update_request
+
+
 async def _file(context, location, content: str) -> dict:
     from streamflow.core import utils
     from streamflow.data.remotepath import StreamFlowPath
@@ -273,6 +324,8 @@ async def _run(case: dict) -> dict:
     dep = "local-fs-volatile"
     config = get_local_deployment_config(name=dep, workdir=os.path.join(root, "work", "test-fs-volatile"))
     await context.deployment_manager.deploy(config)
+    if case.get("trace_fm"):
+        _trace_failure_manager(context)
     res: dict = {"outcome": None}
     try:
         connector = context.deployment_manager.get_connector(dep)
@@ -338,6 +391,7 @@ async def _run(case: dict) -> dict:
     res["deleted"] = STATE["deleted"]
     res["avail"] = STATE["avail"]
     res["events"] = STATE["events"]
+    res["fm_events"] = STATE.get("fm_events", [])
     res["plan_left"] = [p for p in STATE["plan"] if p.get("count", 1) > 0]
     return res
 
@@ -351,6 +405,9 @@ def run_case(case: dict) -> dict:
     root = case.get("root") or tempfile.mkdtemp(prefix="sfv-recov-")
     case = dict(case, root=root)
     try:
+        if case.get("lseed") is not None:
+            from sfv.rt.loop import run_controlled
+            return run_controlled(lambda: _run(case), case["lseed"], timeout=case.get("timeout", 90) + 60)
         return asyncio.run(_run(case))
     finally:
         shutil.rmtree(root, ignore_errors=True)
